@@ -185,6 +185,8 @@ def run(tier):
     violations = [{"kind": "broken-proof-obligation", "what": b, "no_failing_input": True, "input": b} for b in po["broken"]]
     n = 500 if tier == "quick" else 8000
     blocks = gen.blocks(sd * 977 + 11, n, max_snippets=6)
+    # hashes of written ranges used as keys / addresses, pairs of hashes: the dependence comparison has branches of its own for them
+    blocks += rng.sample(gen.mapping_corpus(), 60 if tier == "quick" else 400) + rng.sample(gen.hash_pair_corpus(), 30 if tier == "quick" else 200)
     osets = [["-greedy"], ["-greedy", "-storage"], ["-greedy", "-no-simplification"], ["-greedy", "-partition"]]
     tasks = []
     for i, b in enumerate(blocks):
